@@ -2,6 +2,7 @@
    `canon` = print_state_set (a canonical name per set of states; sorted lists for nat states).
    nfa_to_dfa_fuel is the model of nfa_to_dfa with an explicit bound on the number of loop iterations. *)
 From GT Require Import Base.Prelude Base.Sort Model.DFA Model.NFA Decide.DFAEquiv Proofs.SubsetProofs.
+From GT Require Model.Tokens Model.Naming Proofs.NamingProofs.
 
 Theorem C03_subset_construction_correct : forall (N : nfa nat) (fuel : nat) (D : dfa (list nat)),
   nfa_wf N -> nfa_to_dfa_fuel canon_nat N fuel = Some D ->
@@ -21,6 +22,27 @@ Theorem C03_oracle_exact : forall (N : nfa nat) (D : dfa (list nat)), nfa_wf N -
   (nfa_dfa_equivb N D = true <-> seteq (nS N) (dS D) /\ forall w, Forall (fun a => In a (nS N)) w -> (nfa_lang N w <-> dfa_lang D w)).
 Proof. exact (fun N D => nfa_dfa_equivb_correct N D). Qed.
 
+(* ---- the names of the subset states (print_state_set: '{' + ','.join(sorted(Q)) + '}', Model/Naming.v on character tokens).
+   The model above names a subset by its sorted list of codes; the Python names it by a string.  For state names accepted by
+   the parsers (\w+) different subsets get different strings, and the string is read back as the subset; the two ways in
+   which this can fail for constructor-built automata are exhibited (a name containing a comma; the set {''}). ---- *)
+Theorem C03_subset_names_injective : forall Q1 Q2 : list Tokens.token,
+  (forall x, In x Q1 -> Tokens.re_word x = true) -> (forall x, In x Q2 -> Tokens.re_word x = true) ->
+  Naming.state_set_name Q1 = Naming.state_set_name Q2 -> forall x, In x Q1 <-> In x Q2.
+Proof. exact NamingProofs.state_set_name_inj_words. Qed.
+
+Theorem C03_subset_names_injective_general : forall Q1 Q2 : list Tokens.token,
+  NamingProofs.no_char 44 (Q1 ++ Q2) -> ~ In [] (Q1 ++ Q2) ->
+  Naming.state_set_name Q1 = Naming.state_set_name Q2 -> forall x, In x Q1 <-> In x Q2.
+Proof. exact NamingProofs.state_set_name_inj. Qed.
+
+Theorem C03_subset_names_read_back : forall Q : list Tokens.token, (forall x, In x Q -> Tokens.re_word x = true) ->
+  Naming.parse_state_set (Naming.state_set_name Q) = Some (Naming.sort_tokens Q).
+Proof. exact NamingProofs.parse_state_set_name_words. Qed.
+
 Print Assumptions C03_subset_construction_correct.
 Print Assumptions C03_subset_construction_terminates.
 Print Assumptions C03_oracle_exact.
+Print Assumptions C03_subset_names_injective.
+Print Assumptions C03_subset_names_injective_general.
+Print Assumptions C03_subset_names_read_back.
